@@ -1,7 +1,11 @@
 // Package ext holds the imported types of the skeleton catalogue.
 package ext
 
-import "fmt"
+import (
+	"fmt"
+
+	"verifsk/ext2"
+)
 
 type ID int64
 
@@ -49,8 +53,32 @@ type Profile struct {
 	score   int
 }
 
-func (p *Profile) Inner() Label       { return p.inner }
-func (p *Profile) Score() int         { return p.score }
-func (p *Profile) hiddenGetter() int  { return p.score }
-func (p Profile) ByValue() string     { return p.Nick }
+func (p *Profile) Inner() Label          { return p.inner }
+func (p *Profile) Score() int            { return p.score }
+func (p *Profile) hiddenGetter() int     { return p.score }
+func (p Profile) ByValue() string        { return p.Nick }
 func (p *Profile) Failing() (int, error) { return 0, nil }
+
+// Box / Box2: differing struct types (copied member-wise) whose members are an anonymous struct
+// with unexported members and values of a package the setup file does not import.
+type Box struct {
+	Anon struct {
+		Pub  int
+		priv int
+	}
+	T    ext2.T
+	Ts   []ext2.T
+	Code ext2.Code
+}
+
+type Box2 struct {
+	Anon struct {
+		Pub  int
+		priv int
+		More int
+	}
+	T    ext2.T
+	Ts   []ext2.T
+	Code ext2.Code
+	Pad  int
+}
